@@ -341,8 +341,22 @@ func (c *Ctx) totpNormalised(rule string) {
 				continue
 			}
 			trimmed := func(v ssa.Value) bool {
-				call, _ := CallOf(stripConv18(v))
-				return call != nil && Callee(call) == "strings.TrimSpace"
+				if call, _ := CallOf(stripConv18(v)); call != nil && Callee(call) == "strings.TrimSpace" {
+					return true
+				}
+				// through a local struct field, a cell or a helper's parameter
+				isTrim := func(o Origin) bool { return o.Kind == "call" && strings.HasPrefix(o.Name, "strings.TrimSpace#") }
+				os := c.rawOrigins(v)
+				if !HasOrigin(os, isTrim) {
+					return false
+				}
+				// and nothing untrimmed joins it: every submitted-code origin is behind the trim
+				for _, o := range os {
+					if o.Kind == "call" && strings.Contains(o.Name, ".GetCode#") {
+						return false
+					}
+				}
+				return true
 			}
 			ok := trimmed(Arg(tv, 0))
 			for _, pc := range puts {
@@ -356,4 +370,69 @@ func (c *Ctx) totpNormalised(rule string) {
 	if n == 0 {
 		r.Unknown(rule, "-", "totp.Validate with replay guard", "-", "no function of totp2fa both validates a code and records it (reference: validate, PostConfirm)")
 	}
+}
+
+// typeOnlyArgs: the elements of a printf-style call's variadic argument that
+// the constant format prints with %T only (the dynamic type's name, never the
+// value). Returns the set of element values to leave out of the taint check.
+func typeOnlyArgs(call ssa.CallInstruction) (map[ssa.Value]bool, []ssa.Value) {
+	out := map[ssa.Value]bool{}
+	var elems []ssa.Value
+	args := call.Common().Args
+	if len(args) < 2 {
+		return out, nil
+	}
+	// the format is the last constant string before the variadic slice
+	var format string
+	fi := -1
+	for i, a := range args[:len(args)-1] {
+		if k, ok := a.(*ssa.Const); ok && k.Value != nil && k.Value.Kind() == constant.String {
+			format, fi = constant.StringVal(k.Value), i
+		}
+	}
+	sl, ok := args[len(args)-1].(*ssa.Slice)
+	if fi < 0 || !ok {
+		return out, nil
+	}
+	alloc, ok := sl.X.(*ssa.Alloc)
+	if !ok {
+		return out, nil
+	}
+	// verbs in order
+	var verbs []byte
+	for i := 0; i < len(format); i++ {
+		if format[i] != '%' {
+			continue
+		}
+		i++
+		for i < len(format) && strings.IndexByte("+-# 0123456789.", format[i]) >= 0 {
+			i++
+		}
+		if i < len(format) && format[i] != '%' {
+			if format[i] == '*' || format[i] == '[' {
+				return map[ssa.Value]bool{}, nil // explicit indices / star widths: give up
+			}
+			verbs = append(verbs, format[i])
+		}
+	}
+	for _, ref := range *alloc.Referrers() {
+		ia, ok := ref.(*ssa.IndexAddr)
+		if !ok {
+			continue
+		}
+		k, ok := ia.Index.(*ssa.Const)
+		if !ok || k.Value == nil {
+			continue
+		}
+		idx, _ := constant.Int64Val(k.Value)
+		for _, r2 := range *ia.Referrers() {
+			if st, ok := r2.(*ssa.Store); ok && st.Addr == ssa.Value(ia) {
+				elems = append(elems, st.Val)
+				if int(idx) < len(verbs) && verbs[idx] == 'T' {
+					out[st.Val] = true
+				}
+			}
+		}
+	}
+	return out, elems
 }
